@@ -703,59 +703,89 @@ func drive() {
 		}
 		f := strings.Split(line, " ")
 		res := "bad-op"
-		pan, _ := hx.Guard(func() {
-			switch {
-			case f[0] == "new" && len(f) == 3:
-				nfs, err := memfs.NewFilespace()
-				if err != nil {
-					res = "err"
-					return
-				}
-				fs, p = nfs, newProvider(f[1], nfs, f[2] == "on")
-				res = "ok"
-			case f[0] == "file" && len(f) >= 4 && fs != nil:
-				spec := FileSpec{Path: string(hx.MustDec(f[1])), Root: string(hx.MustDec(f[2])), Bad: len(f) == 5 && f[4] == "bad"}
-				if f[3] != "-" {
-					for _, kv := range strings.Split(f[3], ",") {
-						x := strings.SplitN(kv, "=", 2)
-						spec.Defs = append(spec.Defs, [2]string{string(hx.MustDec(x[0])), string(hx.MustDec(x[1]))})
+		pan, hung := false, false
+		done := make(chan struct{})
+		go func() {
+			defer close(done)
+			pan, _ = hx.Guard(func() {
+				switch {
+				case f[0] == "new" && len(f) == 3:
+					nfs, err := memfs.NewFilespace()
+					if err != nil {
+						res = "err"
+						return
+					}
+					fs, p = nfs, newProvider(f[1], nfs, f[2] == "on")
+					poisoned = false
+					res = "ok"
+				case f[0] == "file" && len(f) >= 4 && fs != nil:
+					spec := FileSpec{Path: string(hx.MustDec(f[1])), Root: string(hx.MustDec(f[2])), Bad: len(f) == 5 && f[4] == "bad"}
+					if f[3] != "-" {
+						for _, kv := range strings.Split(f[3], ",") {
+							x := strings.SplitN(kv, "=", 2)
+							spec.Defs = append(spec.Defs, [2]string{string(hx.MustDec(x[0])), string(hx.MustDec(x[1]))})
+						}
+					}
+					if err := fs.WriteFile(spec.Path, spec.content(), 0666); err != nil {
+						res = "err"
+						return
+					}
+					res = "ok"
+				case f[0] == "dir" && len(f) == 2 && fs != nil:
+					if err := fs.MkdirAll(string(hx.MustDec(f[1])), 0777); err != nil {
+						res = "err"
+						return
+					}
+					res = "ok"
+				case (f[0] == "base" || f[0] == "layout" || f[0] == "view") && p != nil && poisoned:
+					res = "hang" // an earlier request on this provider never returned: it is not asked again
+				case (f[0] == "base" || f[0] == "layout" || f[0] == "view") && p != nil:
+					r := ReqSpec{Op: f[0]}
+					rest := f[1:]
+					if r.Op != "base" && len(rest) > 0 {
+						r.L, rest = string(hx.MustDec(rest[0])), rest[1:]
+					}
+					if r.Op == "view" && len(rest) > 0 {
+						r.V, rest = string(hx.MustDec(rest[0])), rest[1:]
+					}
+					r.Exec = len(rest) == 1 && rest[0] == "exec"
+					o, pn := ask(p, r)
+					if pn {
+						res = "panic"
+					} else {
+						res = o.defsLine()
 					}
 				}
-				if err := fs.WriteFile(spec.Path, spec.content(), 0666); err != nil {
-					res = "err"
-					return
-				}
-				res = "ok"
-			case f[0] == "dir" && len(f) == 2 && fs != nil:
-				if err := fs.MkdirAll(string(hx.MustDec(f[1])), 0777); err != nil {
-					res = "err"
-					return
-				}
-				res = "ok"
-			case (f[0] == "base" || f[0] == "layout" || f[0] == "view") && p != nil:
-				r := ReqSpec{Op: f[0]}
-				rest := f[1:]
-				if r.Op != "base" && len(rest) > 0 {
-					r.L, rest = string(hx.MustDec(rest[0])), rest[1:]
-				}
-				if r.Op == "view" && len(rest) > 0 {
-					r.V, rest = string(hx.MustDec(rest[0])), rest[1:]
-				}
-				r.Exec = len(rest) == 1 && rest[0] == "exec"
-				o, pn := ask(p, r)
-				if pn {
-					res = "panic"
-				} else {
-					res = o.defsLine()
-				}
-			}
-		})
-		if pan {
+			})
+		}()
+		// a provider call that never returns (a lock left behind by an earlier request) must not take the
+		// driver with it: generous watchdog for the first one, a short one afterwards (the property has
+		// failed on that request already); a request after a hang runs on a poisoned provider until `new`
+		wd := 20 * time.Second
+		if driveHangs > 0 {
+			wd = 2 * time.Second
+		}
+		select {
+		case <-done:
+		case <-time.After(wd):
+			hung = true
+			poisoned = true
+			driveHangs++
+		}
+		switch {
+		case hung:
+			res = "hang"
+		case pan:
 			res = "panic"
 		}
 		emit(res)
 	}
 }
+
+var (
+	driveHangs int
+	poisoned   bool
+)
 
 // ---------------------------------------------------------------- gen
 
